@@ -156,6 +156,23 @@ def canon(e: ast.expr) -> str:
         if sset is not None:
             x = norm(e.left.args[0])
             return out(f"all_in({x};{sset})", f"exists_notin({x};{sset})")
+    # {a, b}.issuperset(X)  /  set(X).issubset({a, b})   ≡   all elements of X are in {a, b}
+    if isinstance(e, ast.Call) and isinstance(e.func, ast.Attribute) and len(e.args) == 1 and not e.keywords:
+        if e.func.attr == "issuperset":
+            k = e.func.value
+            while isinstance(k, ast.Call) and norm(k.func) in ("set", "frozenset") and len(k.args) == 1:
+                k = k.args[0]
+            sset = _const_set(k)
+            if sset is not None:
+                return out(f"all_in({norm(e.args[0])};{sset})", f"exists_notin({norm(e.args[0])};{sset})")
+        if e.func.attr == "issubset" and isinstance(e.func.value, ast.Call) and norm(e.func.value.func) in ("set", "frozenset") and len(e.func.value.args) == 1:
+            k = e.args[0]
+            while isinstance(k, ast.Call) and norm(k.func) in ("set", "frozenset") and len(k.args) == 1:
+                k = k.args[0]
+            sset = _const_set(k)
+            if sset is not None:
+                x = norm(e.func.value.args[0])
+                return out(f"all_in({x};{sset})", f"exists_notin({x};{sset})")
     q = _membership_quantifier(e)
     if q is not None:
         quant, x, s, notin = q
